@@ -23,9 +23,20 @@ func checkC19(c *Ctx, r *Report) {
 		r.Fail("anchor", "package transport not found")
 		return
 	}
+	// the registry is found by its type (a map from scheme to a dialer interface, with the mutex
+	// beside it); an access through a receiver counts when every call site passes the registry
+	// (h5Registry, ip_h5.go)
+	reg, why := h5FindRegistry(c, pkg)
+	if reg == nil {
+		r.Fail("anchor", "dialer registry of package transport: %s", why)
+		return
+	}
+	c19Reg0 = reg
+	defer func() { c19Reg0 = nil }()
+	mapName, muName := reg.short(reg.mapPath), reg.short(reg.muPath)
 	// ---- C19-lock
-	r.Rule("C19-lock", 4, "every access to dialers.m is made while dialers.mu is held")
-	isMu := func(v ssa.Value) bool { return strings.HasSuffix(pathOf(v), "transport.dialers.mu") }
+	r.Rule("C19-lock", 4, "every access to "+mapName+" is made while "+muName+" is held")
+	isMu := reg.isMu
 	isLock := func(ci ssa.CallInstruction) bool {
 		n := callName(ci.Common())
 		return (n == "sync.Mutex.Lock" || n == "sync.RWMutex.Lock" || n == "sync.RWMutex.RLock") && isMu(ci.Common().Args[0])
@@ -58,7 +69,7 @@ func checkC19(c *Ctx, r *Report) {
 				if v == nil {
 					continue
 				}
-				if strings.HasSuffix(pathOf(v), "transport.dialers.m") {
+				if reg.isMap(v) {
 					if _, isFA := v.(*ssa.FieldAddr); isFA {
 						if _, isLoadOrStore := instr.(*ssa.UnOp); !isLoadOrStore {
 							if _, isStore := instr.(*ssa.Store); !isStore {
@@ -85,7 +96,7 @@ func checkC19(c *Ctx, r *Report) {
 					what = "delete"
 				}
 			}
-			desc := what + " of dialers.m"
+			desc := what + " of " + mapName
 			if s := c.exprAt(fn, instr.Pos()); s != "" {
 				desc += " in " + s
 			}
@@ -94,18 +105,25 @@ func checkC19(c *Ctx, r *Report) {
 					heldX = lsX.held(fn)
 				}
 				r.Check("C19-lock", fnName(fn), desc, c.pos(instr.Pos()), heldX[instr],
-					"dialers.mu is held exclusively on every path to this write", "dialers.mu is not held exclusively on every path to this write (a read lock admits concurrent readers and writers: concurrent map read and map write with a dial or another unregister)")
+					muName+" is held exclusively on every path to this write", muName+" is not held exclusively on every path to this write (a read lock admits concurrent readers and writers: concurrent map read and map write with a dial or another unregister)")
 				return
 			}
 			r.Check("C19-lock", fnName(fn), desc, c.pos(instr.Pos()), held[instr],
-				"dialers.mu is held on every path to this access", "dialers.mu is not held on every path to this access (data race with concurrent register/unregister/dial)")
+				muName+" is held on every path to this access", muName+" is not held on every path to this access (data race with concurrent register/unregister/dial)")
 		})
 	}
 	_ = nAcc
+	// a selection of the registry's map field through a pointer that cannot be bound to the registry
+	// variable at every call site would escape the lockset above: reported, never skipped
+	for _, fa := range reg.unbound() {
+		r.Add("C19-lock", fnName(fa.Parent()), "access of "+mapName+" through "+derefPath(pathOf(fa)), c.pos(fa.Pos())).Bad("the registry map is reached through %s, which cannot be bound to the registry variable at every call site (exported or address-taken function, method reachable through an interface, or call sites passing different storage): the lock rules cannot follow this access", derefPath(pathOf(fa)))
+	}
 	// no dialer is called while the registry lock is held: a dial can take minutes, and a dialer
 	// that delegates through the registry would deadlock on itself
 	for _, fn := range c.SrcFuncs(pkg) {
-		var held map[ssa.Instruction]bool
+		// "made without holding the lock" means released on every path (free), not merely "not held
+		// on every path": a lock taken on one branch only is still a lock a dial may run under
+		var free map[ssa.Instruction]bool
 		for _, ci := range allCalls(fn) {
 			if !ci.Common().IsInvoke() {
 				// a function of the package that makes the interface call on behalf of this one
@@ -117,18 +135,18 @@ func checkC19(c *Ctx, r *Report) {
 				if via == "" {
 					continue
 				}
-				if held == nil {
-					held = ls.held(fn)
+				if free == nil {
+					free = ls.free(fn)
 				}
-				r.Check("C19-lock", fnName(fn), "call-out through "+c.exprAt(fn, ci.Pos()), c.pos(ci.Pos()), !held[ci],
-					"made without holding dialers.mu (the interface call is in "+via+")", "a function that makes an interface call ("+via+") is called while dialers.mu is held: concurrent register/unregister/dial calls block for the whole dial, and a dialer that dials through the registry deadlocks")
+				r.Check("C19-lock", fnName(fn), "call-out through "+c.exprAt(fn, ci.Pos()), c.pos(ci.Pos()), free[ci],
+					"made without holding "+muName+" (the interface call is in "+via+")", "a function that makes an interface call ("+via+") is called while "+muName+" is held: concurrent register/unregister/dial calls block for the whole dial, and a dialer that dials through the registry deadlocks")
 				continue
 			}
-			if held == nil {
-				held = ls.held(fn)
+			if free == nil {
+				free = ls.free(fn)
 			}
-			r.Check("C19-lock", fnName(fn), "call-out "+c.exprAt(fn, ci.Pos()), c.pos(ci.Pos()), !held[ci],
-				"made without holding dialers.mu", "an interface call (a dialer) is made while dialers.mu is held: concurrent register/unregister/dial calls block for the whole dial, and a dialer that dials through the registry deadlocks")
+			r.Check("C19-lock", fnName(fn), "call-out "+c.exprAt(fn, ci.Pos()), c.pos(ci.Pos()), free[ci],
+				"made without holding "+muName, "an interface call (a dialer) is made while "+muName+" is held: concurrent register/unregister/dial calls block for the whole dial, and a dialer that dials through the registry deadlocks")
 		}
 	}
 	// every function leaves the lock as it found it: the lockset above is computed per function, so a
@@ -139,12 +157,18 @@ func checkC19(c *Ctx, r *Report) {
 		}
 		for _, ret := range returnsOf(fn) {
 			onEntry := ls.entryHeld(fn)
-			bad := "dialers.mu is still held after this return although it was not on entry: the caller goes on (dials) inside the critical section and nobody releases the lock"
+			bad := muName + " is still held after this return although it was not on entry: the caller goes on (dials) inside the critical section and nobody releases the lock"
 			if onEntry {
-				bad = "dialers.mu has been released at this return although every caller holds it across the call: the caller's later accesses are unprotected"
+				bad = muName + " has been released at this return although every caller holds it across the call: the caller's later accesses are unprotected"
 			}
-			r.Check("C19-lock", fnName(fn), "lock state at return", c.pos(ret.Pos()), ls.heldAtReturn(fn, ret) == onEntry,
-				"dialers.mu is left as it was on entry (released here or by a deferred unlock registered on every path)", bad)
+			// entered with the lock: still held on every path; entered without: released on every path
+			// (a lock that may still be held on one path is a lock nobody releases)
+			same := ls.heldAtReturn(fn, ret)
+			if !onEntry {
+				same = ls.freeAtReturn(fn, ret)
+			}
+			r.Check("C19-lock", fnName(fn), "lock state at return", c.pos(ret.Pos()), same,
+				muName+" is left as it was on entry (released here or by a deferred unlock registered on every path)", bad)
 		}
 	}
 
@@ -158,7 +182,7 @@ func checkC19(c *Ctx, r *Report) {
 				r.Fail("C19-register", "anchor transport.%s not found", n)
 				continue
 			}
-			r.Check("C19-register", fnName(fn), "every return follows dialers.m[scheme] = dialer", c.pos(fn.Pos()), c19Registers(fn, pkg),
+			r.Check("C19-register", fnName(fn), "every return follows "+mapName+"[scheme] = dialer", c.pos(fn.Pos()), c19Registers(fn, pkg),
 				"the entry for the scheme is replaced on every path (by a map update, by installing a map that holds the entry where the registry is nil, or by delegating scheme and dialer to a function that does)", "a return can be reached without replacing the scheme's entry (e.g. when one is already registered): a later dial reaches the old dialer instead of the one registered last (installing a fresh map counts only where the registry is known to be nil)")
 		}
 	}
@@ -199,15 +223,15 @@ func checkC19(c *Ctx, r *Report) {
 		}
 		o := r.Add("C19-dispatch", where, "lookup keyed by url.Scheme", c.pos(fn.Pos()))
 		if look == nil {
-			o.Bad("no comma-ok lookup in dialers.m found (neither in %s nor in a helper that returns the lookup's two results)", fnName(fn))
+			o.Bad("no comma-ok lookup in "+mapName+" found (neither in %s nor in a helper that returns the lookup's two results)", fnName(fn))
 		} else if !strings.HasSuffix(look.keyPath(), ".Scheme") {
 			o.Bad("registry lookup at %s is keyed by %s, not by the URL's scheme", c.pos(look.tuple.Pos()), look.keyPath())
 		} else if g6ParamIndex(fn, look.keyRoot) < 0 {
 			o.Bad("registry lookup at %s is keyed by %s, which is not the scheme of the URL passed in", c.pos(look.tuple.Pos()), look.keyPath())
 		} else if look.via != "" {
-			o.OK("dialers.m[%s] with comma-ok, made by %s which returns both results unchanged, called at %s%s", look.keyPath(), look.via, c.pos(look.tuple.Pos()), in)
+			o.OK(mapName+"[%s] with comma-ok, made by %s which returns both results unchanged, called at %s%s", look.keyPath(), look.via, c.pos(look.tuple.Pos()), in)
 		} else {
-			o.OK("dialers.m[%s] with comma-ok at %s%s", look.keyPath(), c.pos(look.tuple.Pos()), in)
+			o.OK(mapName+"[%s] with comma-ok at %s%s", look.keyPath(), c.pos(look.tuple.Pos()), in)
 		}
 		if look != nil {
 			isOK := func(v ssa.Value) bool {
@@ -280,6 +304,7 @@ func checkC19(c *Ctx, r *Report) {
 		}
 		var target ssa.Value
 		var digis ssa.Value
+		var allDigis []ssa.Value
 		eachInstr(fn, func(_ *ssa.BasicBlock, _ int, instr ssa.Instruction) {
 			if st, ok := instr.(*ssa.Store); ok {
 				if fa, ok := st.Addr.(*ssa.FieldAddr); ok {
@@ -290,6 +315,7 @@ func checkC19(c *Ctx, r *Report) {
 						if digis == nil {
 							digis = st.Val
 						}
+						allDigis = append(allDigis, st.Val)
 					}
 				}
 			}
@@ -304,68 +330,15 @@ func checkC19(c *Ctx, r *Report) {
 			o.Bad("a target shorter than three characters can reach the success return at %s", c.pos(okRet.Pos()))
 		}
 		o = r.Add("C19-dispatch", where, "digipeaters refused for schemes without digipeater support", c.pos(fn.Pos()))
-		found := false
-		if okRet != nil {
-			for _, g := range exitGuardsCached(fn) {
-				ret, ok := g.Exit.Instrs[len(g.Exit.Instrs)-1].(*ssa.Return)
-				if !ok || len(ret.Results) != 2 {
-					continue
-				}
-				ld, ok := resOf(ret, 1).(*ssa.UnOp)
-				if !ok || !strings.HasSuffix(pathOf(ld), "transport.ErrDigisUnsupported") {
-					continue
-				}
-				if !g.Head.Dominates(okRet.Block()) || g.Head == okRet.Block() || insideChain(g, okRet.Block()) {
-					continue
-				}
-				// every conjunct of the guard is either exactly "at least one digipeater" or a test that
-				// holds exactly for the schemes without digipeater support (decided by enumerating the
-				// outcomes of the comparisons of the scheme, also inside a predicate of the package);
-				// any other conjunct would let digipeaters through for those schemes
-				depLen, depScheme, other := false, false, false
-				isScheme := func(root ssa.Value, suffix string) bool {
-					return strings.HasSuffix(derefPath(pathOf(root))+suffix, ".Scheme")
-				}
-				for _, cd := range g.Conj {
-					isLen := false
-					if dependsOn(cd.V, func(v ssa.Value) bool {
-						call, ok := v.(*ssa.Call)
-						return ok && callName(&call.Call) == "builtin.len"
-					}) {
-						// the condition must mean exactly "at least one digipeater"
-						cl := pr.collect(cd.If)
-						cl.f = newFactSet()
-						cl.addCond(cd.V, cd.Truth, 0)
-						cl.f.close()
-						for name, j := range cl.f.idx {
-							if strings.HasPrefix(name, "len:") && cl.f.d[cl.f.idx[""]][j] == -1 {
-								isLen = true
-							}
-						}
-					}
-					if isLen {
-						depLen = true
-						continue
-					}
-					set, ok, _ := g6SchemeSetOf(pkg, cd.V, cd.Truth, isScheme)
-					if ok && strings.Join(set, ",") == strings.Join(c19NoDigiSchemes, ",") {
-						depScheme = true
-						continue
-					}
-					other = true
-				}
-				if other {
-					continue
-				}
-				if depLen && depScheme {
-					found = true
-				}
-			}
-		}
-		if found {
-			o.OK("a return of ErrDigisUnsupported, taken exactly when at least one digipeater is present and the scheme is one of %s (the scheme test evaluated for every constant it compares with and for any other scheme), guards the success return", strings.Join(c19NoDigiSchemes, ", "))
+		// decided by enumerating {no digipeater, at least one} x {every scheme compared with, any
+		// other}: whatever the shape of the tests (one compound guard, an early success return for
+		// an empty list followed by a switch on the scheme, a predicate), ErrDigisUnsupported must
+		// be what is returned exactly with at least one digipeater and scheme ardop or telnet
+		// (h5DigiGuard, ip_h5.go)
+		if ok, why := h5DigiGuard(c, fn, pkg, c19NoDigiSchemes); ok {
+			o.OK("a return of ErrDigisUnsupported is taken exactly when at least one digipeater is present and the scheme is one of %s (every test on the number of digipeaters and on the scheme evaluated for no/some digipeaters, for every constant the scheme is compared with and for any other scheme): no success return is reachable in those cases and no refusal in any other", strings.Join(c19NoDigiSchemes, ", "))
 		} else {
-			o.Bad("no guard returning ErrDigisUnsupported (depending on the number of digipeaters and on the scheme being ardop or telnet) dominates the success return")
+			o.Bad("%s", why)
 		}
 		// the host query parameter overrides the host whenever it is non-empty
 		o = r.Add("C19-dispatch", where, "host parameter overrides the host", c.pos(fn.Pos()))
@@ -379,7 +352,22 @@ func checkC19(c *Ctx, r *Report) {
 			call, ok := v.(*ssa.Call)
 			return ok && callName(&call.Call) == "strings.ToUpper"
 		}
-		if target != nil && digis != nil && dependsOn(target, isUpper) && dependsOn(digis, isUpper) {
+		// every list assigned to URL.Digis is upper-cased, or has no element to upper-case
+		digisUpper := false
+		{
+			n := 0
+			for _, d := range allDigis {
+				switch {
+				case dependsOn(d, isUpper):
+					n++
+				case h5EmptySlice(d):
+				default:
+					n = -len(allDigis) - 1
+				}
+			}
+			digisUpper = n > 0
+		}
+		if target != nil && digis != nil && dependsOn(target, isUpper) && digisUpper {
 			o.OK("URL.Target and URL.Digis derive from strings.ToUpper of the path")
 		} else {
 			o.Bad("URL.Target or URL.Digis does not derive from the upper-cased path")
